@@ -872,6 +872,12 @@ def acute_cone(name):
             b2 = np.cross(a, b1)
             ang = 2 * np.pi * np.arange(k) / k
             W = np.array([np.sin(phi) * a + np.cos(phi) * (np.cos(t) * b1 + np.sin(t) * b2) for t in ang])
+        elif name.startswith("order3d-"):
+            from vopy.order import ConeOrder3D
+
+            W = ConeOrder3D(name[8:]).ordering_cone.W
+        elif name in USER_CONES:
+            W = np.array(USER_CONES[name], dtype=float)
         elif name in OFFAXIS_INT:
             W = np.array(OFFAXIS_INT[name], dtype=float)
         else:
@@ -880,6 +886,16 @@ def acute_cone(name):
     return _cone_cache[name]
 
 
+# asymmetric user cones: non-unit rows, facets of different "weight", N ≠ m, a facet inactive for u*
+USER_CONES = {
+    "user2-scaled": [[2, 0], [0, 1]],
+    "user2-skew": [[1, 0], [-1, 2]],
+    "user2-three": [[3, -1], [-1, 2], [1, 0]],
+    "user3-cut": [[1, 0, 0], [0, 1, 0], [1, 1, 1]],
+    "user3-cut-unit": [[1.0, 0.0, 0.0], [0.0, 1.0, 0.0], [3 ** -0.5, 3 ** -0.5, 3 ** -0.5]],
+    "user3-mixed": [[1, -1, 1], [1, 1, -1], [-1, 1, 1]],
+    "user3-asym": [[2, 0, 0], [-1, 3, 0], [0, -1, 1], [1, 1, 1]],
+}
 # integer-row cones whose axis is off the diagonal
 OFFAXIS_INT = {"offaxis2a": [[-2, 1], [1, 2]], "offaxis2b": [[-1, 3], [3, 1]], "offaxis2c": [[1, -3], [1, 2]]}
 OFFAXIS_CONES2 = ["rays60_150", "rays100_170", "rays-20_40", "rays30_100", "offaxis2a", "offaxis2b", "offaxis2c"]
@@ -892,7 +908,12 @@ def box_vertices(lo, hi):
     return [np.array(v) for v in itertools.product(*zip(lo, hi))]
 
 
-def corner_pair(rng, W, s, want_pess=False, tries=400):
+def vertex_subset(lo, hi, patterns):
+    """the vertices of [lo, hi] whose upper/lower pattern (tuple of 0/1 per coordinate) is in `patterns`"""
+    return [np.array([hi[d] if p[d] else lo[d] for d in range(len(lo))]) for p in patterns]
+
+
+def corner_pair(rng, W, s, want_pess=False, tries=400, patterns=None):
     """Two designs (victim 0, witness 1) and first-round boxes such that the truth is inside both boxes, the
     true difference μ_1 (+ s) − μ_0 lies just OUTSIDE the cone (one facet slightly negative, the others clearly
     positive), corner-to-corner dominance `W(lower_1 + s − upper_0) ≥ 0` holds, but some cross pair of vertices
@@ -940,6 +961,11 @@ def corner_pair(rng, W, s, want_pess=False, tries=400):
         exact = all(np.all(Wn @ (v1 + s - v0) >= -tol) for v0 in box_vertices(lo0, hi0) for v1 in box_vertices(lo1, hi1))
         if not corner or exact:
             continue
+        if patterns is not None:
+            # a vertex enumeration that yields only `patterns` would still see every pair ordered
+            if not all(np.all(Wn @ (v1 + s - v0) >= 1e-6) for v0 in vertex_subset(lo0, hi0, patterns)
+                       for v1 in vertex_subset(lo1, hi1, patterns)):
+                continue
         if want_pess:
             low0 = lo0
             if not all(np.all(Wn @ (v1 - low0) >= 1e-6) for v1 in box_vertices(lo1, hi1)):
@@ -1012,7 +1038,7 @@ def wrong_axes(M):
 ELL_CONES = ["orthant2", "orthant2", "acute2", "obtuse2", "skew2", "orthant3", "acute3"]
 
 
-def ell_corr_case(rng, tries=300):
+def ell_corr_case(rng, tries=300, alg=None, diagonal=False):
     """PaVeBaGP-DE: victim 0 and witness 1 with μ_1 − μ_0 just outside the cone; both displayed ellipsoids strongly
     correlated (|ρ| ≤ 0.95, both signs) and anisotropic, posterior means pushed along the long axis (truth at
     Mahalanobis depth ≤ 0.9).  Accepted when the true ellipsoids are NOT ordered while ellipsoids with the same
@@ -1026,6 +1052,11 @@ def ell_corr_case(rng, tries=300):
         if m == 3:
             rho = abs(rho) if rng.random() < 0.7 else -0.45
         D = np.diag([rng.choice([0.5, 1.0, 2.0]) for _ in range(m)])
+        if diagonal:      # heteroscedastic but uncorrelated: semi-axes differing by up to 8×
+            rho = 0.0
+            D = np.diag([rng.choice([0.25, 0.5, 1.0, 2.0]) for _ in range(m)])
+            if np.max(np.diag(D)) / np.min(np.diag(D)) < 2:
+                continue
         R = (1 - rho) * np.eye(m) + rho * np.ones((m, m))
         M = D @ R @ D
         if np.min(np.linalg.eigvalsh(M)) <= 1e-6:
@@ -1049,7 +1080,11 @@ def ell_corr_case(rng, tries=300):
         if np.all(true_min >= -1e-9):
             continue                                                   # really ordered: nothing to see
         fooled = False
-        for Mw in wrong_axes(M):
+        # a predicate that only solves the facet whose centre margin (per unit normal) is smallest
+        nstar = int(np.argmin((Wn @ c) / np.linalg.norm(Wn, axis=1)))
+        if true_min[nstar] >= 1e-4:
+            fooled = True
+        for Mw in ([] if diagonal else wrong_axes(M)):
             wm = np.array([Wn[n] @ c - 2 * ell_support(Mw, h, Wn[n]) for n in range(N)])
             if np.all(wm >= 1e-4):
                 fooled = True
@@ -1064,7 +1099,8 @@ def ell_corr_case(rng, tries=300):
             off.append([0.0] * m)
             shapes.append(np.eye(m).tolist())
         n = len(Y)
-        return {"kind": "run", "alg": "PaVeBaGP-DE", "cone": cname, "shape": "ell-correlated", "Y": Y,
+        return {"kind": "run", "alg": alg or "PaVeBaGP-DE", "cone": cname,
+                "shape": "ell-anisotropic" if diagonal else "ell-correlated", "Y": Y,
                 "eps": rng.choice([0.01, 0.05]), "delta": 0.1, "noise_var": 0.0001, "conf": rng.choice([1, 32]),
                 "batch": 1,
                 "adv": {"mode": "boxes", "frac": 1.0, "sd0": [[1.0] * m] * n, "shrink": [0.5] * n,
@@ -1091,38 +1127,58 @@ class D6Adversary(Adversary):
         return np.stack([np.eye(2), np.eye(2)])
 
 
-def gen(ctx):
-    rng = ctx.rng
-    # the hand-built histories d6_case(0/1), auer_minwidth_case(), auer_position_case() live in corpus/C01/
-    for _ in range(ctx.n(30, 700)):
-        yield gen_auer_offsets(rng, ctx.tier)
-    # structured family: over-optimistic region domination on acute cones (rectangular variants)
-    for k in range(ctx.n(8, 160)):
-        c = corner_case(rng, RECT_ALGS[k % 2])
-        if c is not None:
-            yield c
-    # structured family: strongly correlated anisotropic ellipsoids (PaVeBaGP-DE)
-    for k in range(ctx.n(10, 120)):
-        c = ell_corr_case(rng)
-        if c is not None:
-            yield c
-    # large common offset (translation invariance): structured cases of the rectangle variants (and, for contrast,
-    # the ellipsoidal ones) translated by 2^12 … 2^20
-    for k in range(ctx.n(12, 240)):
+def family(ctx, name, nfixed, nthorough, make):
+    """Structured family: the first `nfixed` cases come from an RNG sub-stream that depends on the family name
+    only — the same cases in every run, whatever VERIF_SEED (worker 0) — the thorough tier adds `nthorough` more
+    from the seeded stream.  `make(rng, k)` returns a case or None."""
+    import random
+
+    if ctx.worker == 0:
+        fixed = random.Random(f"{ctx.prop}/{name}")
+        for k in range(nfixed):
+            c = make(fixed, k)
+            if c is not None:
+                yield c
+    if ctx.tier == "thorough":
+        for k in range(ctx.n(nthorough, nthorough)):
+            c = make(ctx.rng, nfixed + k)
+            if c is not None:
+                yield c
+
+
+def offset_member(tier):
+    def make(rng, k):
         alg = (RECT_ALGS + RECT_ALGS + ("PaVeBaGP-DE", "PaVeBaPartialGP-ell"))[k % 6]
         if k % 3 == 2 and alg in RECT_ALGS:
             base = corner_case(rng, alg)
         else:
-            base = gen_case(rng, ctx.tier, alg, rng.choice(["eps-boundary", "ties", "front", "chain", "near-incomparable"]))
+            base = gen_case(rng, tier, alg, rng.choice(["eps-boundary", "ties", "front", "chain", "near-incomparable"]))
             base["batch"] = 1
-        if base is not None:
-            yield with_offset(rng, base)
+        return None if base is None else with_offset(rng, base)
+    return make
+
+
+def gen(ctx):
+    rng = ctx.rng
+    # the hand-built histories d6_case(0/1), auer_minwidth_case(), auer_position_case() live in corpus/C01/
+    # structured families (fixed sub-streams: identical in every quick run)
+    yield from family(ctx, "auer-offsets", 30, 700, lambda r, k: gen_auer_offsets(r, ctx.tier))
+    # over-optimistic region domination on acute cones (rectangular variants)
+    yield from family(ctx, "acute-corner", 8, 160, lambda r, k: corner_case(r, RECT_ALGS[k % 2]))
+    # strongly correlated anisotropic ellipsoids (PaVeBaGP-DE)
+    yield from family(ctx, "ell-correlated", 10, 120, lambda r, k: ell_corr_case(r))
+    # heteroscedastic uncorrelated ellipsoids (PaVeBaGP-DE, PaVeBaPartialGP-ell): the violated facet is not the one
+    # with the smallest centre margin
+    yield from family(ctx, "ell-anisotropic", 10, 120, lambda r, k: ell_corr_case(
+        r, alg=("PaVeBaGP-DE", "PaVeBaPartialGP-ell")[k % 2], diagonal=True))
+    # large common offset (translation invariance), 2^12 … 2^20
+    yield from family(ctx, "offset", 12, 240, offset_member(ctx.tier))
     # Auer with empirical β and noise variance > 1: truths at the worst corners of the displayed boxes
-    for k in range(ctx.n(8, 160)):
-        yield auer_two_phase_case(rng)
+    yield from family(ctx, "auer-two-phase", 8, 160, lambda r, k: auer_two_phase_case(r))
     # PaVeBa on cones whose rows are not unit vectors (α must scale with the rows)
-    for k in range(ctx.n(3, 60)):
-        yield paveba_window_case(rng, ctx.tier, small_rows=True)
+    yield from family(ctx, "window-small-rows", 3, 60, lambda r, k: paveba_window_case(r, ctx.tier, small_rows=True))
+    # PaVeBa windows in which U matters
+    yield from family(ctx, "window", 6, 0, lambda r, k: paveba_window_case(r, ctx.tier))
     # structured sweep: every algorithm × a few shapes
     total = ctx.n(64, 1200)
     k = 0
